@@ -384,6 +384,10 @@ impl C19 {
                     lm.insert("A".into(), vec![location("A", 1)]);
                     lm.insert("B".into(), vec![location("B", n as u32)]);
                     let mut sim = tsb.make_speed_limit_train_sim(&lm, construct_iv, None, None)?;
+                    if let Some((t, c)) = tc.brake_ramp_up {
+                        sim.fric_brake.ramp_up_time = altrios_core::uc::S * t;
+                        sim.fric_brake.ramp_up_coeff = altrios_core::uc::R * c;
+                    }
                     if case.via_setter {
                         sim.set_save_interval(case.interval);
                     }
